@@ -1159,6 +1159,77 @@ Fixpoint enums_ok (s : spec) : bool :=
 Definition run_hyps (s : spec) : tr :=
   L [ebool (wfb s); ebool (keys_ok s); ebool (sizes_ok s); ebool (enums_ok s)].
 
+(* The receiver a steers clear of the open findings whose flag is on in q (the behaviour of the
+   code as it is): no frozen part when is_compatible ignores a frozen receiver, no List with a
+   positive min_size when min_size is ignored, no Enum when an Enum rule is loose. *)
+Fixpoint avoids (q : quirks) (a : spec) : bool :=
+  (negb (q_frozen_recv q) || negb (frozen (mods_of a))) &&
+  match a with
+  | SEnum _ _ => negb (q_enum_shortcut q) && negb (q_enum_subset q)
+  | SList e mn _ _ => (negb (q_list_min q) || (mn <=? 0)) && avoids q e
+  | STuple es _ _ _ => forallb (avoids q) es
+  | SDict (Some fs) _ => forallb (fun kf => avoids q (snd kf)) fs
+  | SUnion cs _ => forallb (avoids q) cs
+  | _ => true
+  end.
+
+(* ------------------------------------------------------------------------------------------ *)
+(** * Unions with a safe dispatch (hypotheses of the Union theorems; both decidable)
+
+   [union_plain]: the candidates of every Union inside are not frozen, are not Unions themselves
+   and have a value type (so Union.apply always dispatches by isinstance).
+   [union_safe]: moreover the candidates are Bool/Int/Float/Str/List/Tuple/Dict/Object specs whose
+   value types are pairwise unrelated by issubclass (no candidate can capture another's values;
+   Union([Int(), Bool()]) and a Union with an Any candidate are excluded). *)
+
+Definition cand_plain (c : spec) : bool :=
+  negb (frozen (mods_of c)) && negb (is_union c) &&
+  match vtype c with Some _ => true | None => false end.
+
+Fixpoint union_plain (s : spec) : bool :=
+  match s with
+  | SUnion cs _ => forallb cand_plain cs && forallb union_plain cs
+  | SList e _ _ _ => union_plain e
+  | STuple es _ _ _ => forallb union_plain es
+  | SDict (Some fs) _ => forallb (fun kf => union_plain (snd kf)) fs
+  | _ => true
+  end.
+
+Definition cand_simple (c : spec) : bool :=
+  negb (frozen (mods_of c)) &&
+  match c with
+  | SBool _ | SInt _ _ _ | SFloat _ _ _ | SStr _ | SList _ _ _ _ | STuple _ _ _ _ | SDict _ _ | SObj _ _ => true
+  | _ => false
+  end.
+
+(* the single value type of a simple candidate *)
+Definition cand_type (c : spec) : ty :=
+  match vtype c with Some (t :: _) => t | _ => TyObject end.
+
+Definition unrelated (c c' : spec) : bool :=
+  negb (issub (cand_type c) (cand_type c')) && negb (issub (cand_type c') (cand_type c)).
+
+Fixpoint pairwise_unrelated (cs : list spec) : bool :=
+  match cs with
+  | [] => true
+  | c :: r => forallb (unrelated c) r && pairwise_unrelated r
+  end.
+
+Fixpoint union_safe (s : spec) : bool :=
+  match s with
+  | SUnion cs _ => forallb cand_simple cs && pairwise_unrelated cs && forallb union_safe cs
+  | SList e _ _ _ => union_safe e
+  | STuple es _ _ _ => forallb union_safe es
+  | SDict (Some fs) _ => forallb (fun kf => union_safe (snd kf)) fs
+  | _ => true
+  end.
+
+(* which theorem fragments a spec lies in (reported per run as a coverage histogram):
+   case ((q ...) 4 spec) -> (no_union union_plain union_safe no_schema no_frozen avoids) *)
+Definition run_fragments (q : quirks) (s : spec) : tr :=
+  L [ebool (no_union s); ebool (union_plain s); ebool (union_safe s); ebool (no_schema s);
+     ebool (no_frozen s); ebool (avoids q s)].
+
 Definition run (c : tr) : tr :=
   match c with
   | L [qs; I 0; p; s; v] =>
@@ -1181,19 +1252,10 @@ Definition run (c : tr) : tr :=
       | Some _, Some a' => run_hyps a'
       | _, _ => ebad
       end
+  | L [qs; I 4; a] =>
+      match d_quirks qs, d_spec 50 a with
+      | Some q, Some a' => run_fragments q a'
+      | _, _ => ebad
+      end
   | _ => ebad
-  end.
-
-(* The receiver a steers clear of the open findings whose flag is on in q (the behaviour of the
-   code as it is): no frozen part when is_compatible ignores a frozen receiver, no List with a
-   positive min_size when min_size is ignored, no Enum when an Enum rule is loose. *)
-Fixpoint avoids (q : quirks) (a : spec) : bool :=
-  (negb (q_frozen_recv q) || negb (frozen (mods_of a))) &&
-  match a with
-  | SEnum _ _ => negb (q_enum_shortcut q) && negb (q_enum_subset q)
-  | SList e mn _ _ => (negb (q_list_min q) || (mn <=? 0)) && avoids q e
-  | STuple es _ _ _ => forallb (avoids q) es
-  | SDict (Some fs) _ => forallb (fun kf => avoids q (snd kf)) fs
-  | SUnion cs _ => forallb (avoids q) cs
-  | _ => true
   end.
